@@ -128,7 +128,7 @@ def gen_concurrent_case(rng: random.Random, tier: str, backends=('dict',),
 
 
 def run_concurrent(case: dict, prop: str, trace: bool = False,
-                   after_step=None, at_end=None) -> dict:
+                   after_step=None, at_end=None, keep=None) -> dict:
     ctx = Ctx(case, trace=trace)
     effect_order = []
     try:
@@ -155,7 +155,8 @@ def run_concurrent(case: dict, prop: str, trace: bool = False,
                 shadow_stats[k] += getattr(cl.shadow, k)
         res['stats'].update(shadow_stats)
         res['violations'] = [v for v in res['violations']
-                             if v['property'] == prop]
+                             if v['property'] == prop
+                             or (keep is not None and keep(v))]
         fired = res['fired']
         res['nontrivial'] = concurrent or any(
             k.startswith('fault:') for k in fired)
